@@ -94,4 +94,12 @@ C18_json(di, out) ==
                 (di.skip_private /\ IsPrivate(i.b)) \/
                   (/\ NamesOfHop(h) = (IF i.s \in DOMAIN di.names THEN di.names[i.s] ELSE <<>>)
                    /\ h.ip_address = i.s /\ h.rtt = i.rtt * 1000)
+
+\* C18(b) after the pipeline: a success stored during enrichment is returned until expiry without asking the resolver again
+C18_reprobe(di, got) ==
+    \A i \in DOMAIN got : (got[i].op = "reprobe" /\ \E x \in DOMAIN di.hit : di.hit[x] = got[i].key) =>
+        (~got[i].invoked /\ got[i].ok /\ got[i].val = di.names[got[i].key][1])
+
+\* C08: the post-processing stage is bounded by one lookup timeout whatever the resolvers do
+C08_doc(di, out) == out.panic = "" /\ out.t <= di.bound_us
 =============================================================================
